@@ -4,6 +4,8 @@
 -/
 import Asn1.Generated
 import Proofs.TagLen
+import Proofs.RoundTrip
+import Proofs.TagReject
 
 namespace Asn1.C13
 
@@ -49,5 +51,46 @@ theorem string_tags_match_source :
 /-- non-vacuity: a concrete multi-octet tag -/
 example : decodeTag (encodeTag ⟨.priv, false, 16384⟩ true ++ [7]) = .ok (⟨.priv, true, 16384⟩, [7]) :=
   tag_roundtrip _ _ _
+
+
+/-- **the tags on the wire are the type's tags** (region of `Asn1.Ty.reg`: no ANY/REAL; finding E1
+    excluded in indefinite mode).  Whatever the BER encoder returns for a value of `t`, in any mode,
+    is one well-formed element `x` such that
+      * the framing layer reads `x` back from the octets (so `x`'s identifiers are what is on the wire),
+      * walking from the outside in, `x` carries `t`'s tags in class and number, every wrapper having
+        the constructed bit and exactly one element inside, the innermost element being constructed
+        exactly when the contents are,
+      * decoding with `t` accepts it and gives the value back,
+      * decoding with any type `t'` of the same tagging depth whose tags differ in class or number
+        at any level is rejected. -/
+theorem wire_tags_are_type_tags (defMode : Bool) (maxChunk : Nat) (t : Ty) (v : Val) (b tail : Bytes)
+    (hreg : t.reg Generated.berEnc defMode = true) (hwf : t.WF = true) (hty : HasType t v = true)
+    (h : encItem Generated.berEnc { defMode := defMode, maxChunk := maxChunk } t v = .ok b) :
+    ∃ x : TLV, parseOne Generated.berDecByType.parse (b ++ tail) = .ok (x, tail) ∧
+      Carries t.tags.reverse x ∧
+      decodeOne Generated.berDecByType t (b ++ tail) = .ok (v, tail) ∧
+      ∀ t' : Ty, isAnyBase t' = false → t.tags.length = t'.tags.length →
+        tagsDiffer t.tags.reverse t'.tags.reverse = true →
+        decodeOne Generated.berDecByType t' (b ++ tail) = .error .malformed := by
+  have hR : Region Generated.berEnc Generated.berDecByType { defMode := defMode, maxChunk := maxChunk } :=
+    { seqOmit := rfl, setOrd := rfl, sortOf := rfl, chunk := Or.inr ⟨rfl, by decide⟩, ine := rfl,
+      bool := by intro b hd tg; cases b <;> rfl }
+  obtain ⟨x, hb, hxw, _, _, hxd⟩ := encode_good Generated.berEnc Generated.berDecByType _ hR t v b hreg hwf hty h
+  subst hb
+  have hna := reg_not_any Generated.berEnc defMode t hreg
+  have hp := parseOne_ser Generated.berDecByType.parse x tail hxw (Or.inl rfl)
+  refine ⟨x, hp, decTy_carries _ t x v hna hxw hxd, ?_, ?_⟩
+  · simp only [decodeOne, hp, hxd, Except.map]
+  · intro t' ha' hl hd
+    simp only [decodeOne, hp, decTy_reject _ t t' x v hna ha' hl hd hxd, Except.map]
+
+/-- the hypotheses of the rejection clause are met: `[1] EXPLICIT [APPLICATION 31] IMPLICIT INTEGER`
+    against the same stack with 30 in place of 31 -/
+example :
+    let t : Ty := .tagged true .context 1 (.tagged false .application 31 (.prim .integer))
+    let t' : Ty := .tagged true .context 1 (.tagged false .application 30 (.prim .integer))
+    t.reg Generated.berEnc true = true ∧ t.WF = true ∧ isAnyBase t' = false ∧
+      t.tags.length = t'.tags.length ∧ tagsDiffer t.tags.reverse t'.tags.reverse = true := by
+  decide
 
 end Asn1.C13
